@@ -579,7 +579,9 @@ func runC19(c *Ctx) {
 			c17FailClosed(c, gg)
 			c.R = saved
 			for _, o := range sub.Obs {
-				if !strings.Contains(o.Construct, "exactly as given") && !strings.Contains(o.Construct, "only by SetDecorationNamed") {
+				// the whole fail-closed chain: a name is refused exactly when the registry does not know it (a test that
+				// refuses more - some registered decorations - makes a listed name unrenderable)
+				if o.Rule != "R17.4" {
 					continue
 				}
 				ob := r.Check("R19.3", o.Func, "name-resolution premise: "+o.Construct, 0, o.Verdict == "discharged", "a listed name must select the decoration registered under that spelling")
